@@ -259,10 +259,13 @@ impl Disconnect {
         }
     }
 
+    /// Normal disconnection without properties: written as the two bytes E0 00
+    fn is_plain(&self) -> bool {
+        self.reason_code == DisconnectReasonCode::NormalDisconnection && self.properties.is_none()
+    }
+
     fn len(&self) -> usize {
-        if self.reason_code == DisconnectReasonCode::NormalDisconnection
-            && self.properties.is_none()
-        {
+        if self.is_plain() {
             return 2; // Packet type + 0x00
         }
 
@@ -283,7 +286,7 @@ impl Disconnect {
 
     pub fn size(&self) -> usize {
         let len = self.len();
-        if len == 2 {
+        if self.is_plain() {
             return len;
         }
 
@@ -325,7 +328,7 @@ impl Disconnect {
 
         let length = self.len();
 
-        if length == 2 {
+        if self.is_plain() {
             buffer.put_u8(0x00);
             return Ok(length);
         }
